@@ -536,7 +536,21 @@ class UserActions(object):
     # unchanged values.
     action, extra_actions = self._engine.convert_action_values(
       actions.BulkUpdateRecord(table_id, row_ids, columns))
+    given = action
     action = [_, row_ids, column_values] = self._engine.trim_update_action(action)
+
+    # An explicit value for a trigger-formula column is kept even when it equals the current
+    # value. Keep such a column in a non-trivial update, so that it stays protected from
+    # recalculation when this update changes a column it depends on (and likewise on undo).
+    if column_values:
+      for col_id, values in given.columns.items():
+        col_obj = self._engine.tables[table_id].get_column(col_id)
+        if col_id in column_values or col_obj.is_formula() or not col_obj.has_formula():
+          continue
+        col_rec = self._docmodel.columns.lookupOne(tableId=table_id, colId=col_id)
+        if not col_rec.recalcOnChangesToSelf:
+          value_map = dict(zip(given.row_ids, values))
+          column_values[col_id] = [value_map[r] for r in row_ids]
 
     # Prevent modifying raw data widgets and their fields
     # This is done here so that the trimmed action can be checked,
